@@ -1,43 +1,58 @@
 (* Proofs/CodecErrDefs.v — C08: the computable side conditions and the independent notions the
-   error-algebra theorems are stated with.  Definitions only.
+   error-algebra theorems are stated with.  Definitions only.  (Model as of /repo bcb4254: the codec
+   fix wave; the classes those commits repaired are no longer excluded here.)
 
-     progress / hprogress   element types on which Array(None, T) terminates
+     progress / hprogress   types whose successful decode consumes input; the only place where it
+                            still matters is Array(<length type>, T): the loop runs `count` times
      strict / swidth        types every value of which is read from exactly [swidth] bytes
      width_of / announced   the number of bytes a type / the head of a buffer announces (spec side:
                             written from the wire layout, never from the decoders)
      be_ok                  types whose decoder raises BufferEmptyError only at the end of the buffer
-     enc_foreign            (type, value) pairs on which the length test outside Array.encode's try
-                            (or DATE_AND_TIME's arity) lets TypeError escape
      bad / silent           values clearly outside a type's domain; those the code accepts silently *)
-From PV Require Import Base.Bytes Base.Res Model.Codec Model.CodecDom.
+From PV Require Import Base.Bytes Base.Res Model.Codec.
 Open Scope Z_scope.
 
 Definition is_nil {A} (l : list A) : bool := match l with [] => true | _ => false end.
 Definition is_none {A} (o : option A) : bool := match o with None => true | Some _ => false end.
 Definition is_err {A} (r : res A) : bool := match r with Err _ => true | Ok _ => false end.
 
-(* ------------------------------------------------------------------ termination of Array(None, T) *)
+(* ------------------------------------------------------------------ progress *)
 (* every successful decode of the type consumes at least one byte *)
 Fixpoint progress (t : ty) : bool :=
   match t with
-  | TPcccAscii => false                       (* plain stream.read(2): "" from the empty buffer *)
-  | TArrAll _ => false                        (* [] from the empty buffer *)
+  | TBool | TReal _ | TIPAddr | TDateTime | TStringN | TStringI | TPcccAscii | TPcccString => true
+  | TInt _ w | TBits w => (0 <? w)%nat
+  | TStr _ lw _ => (0 <? lw)%nat
+  | TNBytes n => negb (n =? 0)
+  | TFixedStr size _ lw _ => (0 <? lw)%nat || (0 <? size)%nat
   | TArrFixed n e => (0 <? n)%nat && progress e
+  | TArrPrefix _ lt _ => progress lt
+  | TArrAll _ => false                        (* [] from the empty buffer *)
   | TStruct _ ms => existsb (fun m => progress (snd m)) ms
   | TStructTag ms bits _ size =>
       (0 <? size)%nat && (existsb (fun m => progress (snd m)) ms || negb (is_nil bits))
-  | _ => true                                 (* the first action is a _stream_read / an integer decode *)
   end.
 
-(* every unbounded array inside the type is over an element type that makes progress *)
+(* Array(L, T).decode runs `count` element decodes whatever the buffer holds: with an element type
+   that can succeed without consuming input the loop is as long as the (attacker-chosen) count.
+   [hprogress]: every length-prefixed array inside the type is over an element type that makes
+   progress (so the loop ends with the buffer). *)
 Fixpoint hprogress (t : ty) : bool :=
   match t with
-  | TArrAll e => progress e && hprogress e
+  | TArrAll e => hprogress e
   | TArrFixed _ e => hprogress e
-  | TArrPrefix inst lt _ => negb inst || hprogress lt      (* only the length decoder ever runs *)
+  | TArrPrefix _ lt e => progress e && hprogress lt && hprogress e
   | TStruct _ ms => forallb (fun m => hprogress (snd m)) ms
   | TStructTag ms _ _ _ => forallb (fun m => hprogress (snd m)) ms
   | _ => true
+  end.
+Fixpoint has_prefix (t : ty) : bool :=
+  match t with
+  | TArrPrefix _ _ _ => true
+  | TArrAll e | TArrFixed _ e => has_prefix e
+  | TStruct _ ms => existsb (fun m => has_prefix (snd m)) ms
+  | TStructTag ms _ _ _ => existsb (fun m => has_prefix (snd m)) ms
+  | _ => false
   end.
 
 (* ------------------------------------------------------------------ widths (spec side) *)
@@ -69,13 +84,14 @@ Fixpoint width_of (t : ty) : option nat :=
 (* the integer a length prefix of [w] bytes denotes *)
 Definition prefix_val (sg : bool) (w : nat) (bs : bytes) : Z :=
   let u := le_dec (firstn w bs) in if sg then to_signed w u else u.
+Definition char_width (e : tenc) : Z := match e with Latin1 | Utf8 => 1 | Utf16 => 2 | Utf32 => 4 end.
 
 (* the number of bytes the value at the head of [bs] announces: the constant width, or the length
-   prefix plus the character data it counts *)
+   prefix plus the characters it counts *)
 Definition announced (t : ty) (bs : bytes) : option Z :=
   match t with
-  | TStr lsg lw _ =>
-      if (lw <=? length bs)%nat then Some (Z.of_nat lw + Z.max 0 (prefix_val lsg lw bs)) else Some (Z.of_nat lw)
+  | TStr lsg lw e =>
+      if (lw <=? length bs)%nat then Some (Z.of_nat lw + Z.max 0 (prefix_val lsg lw bs * char_width e)) else Some (Z.of_nat lw)
   | TStringN =>
       if (4 <=? length bs)%nat
       then Some (4 + prefix_val false 2 bs * prefix_val false 2 (skipn 2 bs))
@@ -91,74 +107,48 @@ Fixpoint swidth (t : ty) : nat :=
   | TReal dbl => if dbl then 8 else 4
   | TDateTime => 6
   | TBits w => w
+  | TNBytes n => Z.to_nat n
+  | TFixedStr size _ lw _ => lw + size
   | TIPAddr => 4
+  | TPcccAscii => 2
   | TArrFixed n e => n * swidth e
   | TStruct _ ms => list_sum (map (fun m => swidth (snd m)) ms)
   | TStructTag _ _ _ size => size
   | _ => 0
   end.
 
-(* StructTag members at increasing, non-overlapping offsets inside the structure *)
-Fixpoint stag_layout_strict (pos : nat) (ms : list ((key * nat) * ty)) (size : nat) : bool :=
-  match ms with
-  | [] => (pos <=? size)%nat
-  | ((_, off), t) :: r => (pos <=? off)%nat && stag_layout_strict (off + swidth t) r size
-  end.
-(* the structure's last byte belongs to a member or carries a bit member (no trailing padding) *)
-Definition stag_tight (ms : list ((key * nat) * ty)) (bits : list (text * (nat * nat))) (size : nat) : bool :=
-  (size =? 0)%nat
-  || existsb (fun m => (0 <? swidth (snd m))%nat && (snd (fst m) + swidth (snd m) =? size)%nat) ms
-  || existsb (fun b => (fst (snd b) + 1 =? size)%nat) bits.
-
-(* every value is decoded from exactly [swidth t] bytes: the elementary fixed-width classes and
-   arrays / structures / tightly laid out StructTags of them.  Excluded (they accept short
-   buffers): strings, n_bytes, FixedSizeString, PCCC_ASCII, StructTags with trailing padding. *)
+(* every value is decoded from exactly [swidth t] bytes.  A StructTag qualifies when its members
+   are strict and lie inside the structure, and it cannot be "decoded" from an exhausted buffer
+   (it has a member that makes progress, or a bit member, or no size). *)
 Fixpoint strict (t : ty) : bool :=
   match t with
-  | TBool | TReal _ | TIPAddr | TDateTime => true
-  | TInt _ w | TBits w => (0 <? w)%nat
+  | TBool | TReal _ | TIPAddr | TDateTime | TInt _ _ | TBits _ | TFixedStr _ _ _ _ | TPcccAscii => true
+  | TNBytes n => 0 <=? n
   | TArrFixed _ e => strict e
   | TStruct _ ms => forallb (fun m => strict (snd m)) ms
   | TStructTag ms bits _ size =>
-      forallb (fun m => strict (snd m)) ms && stag_layout_strict 0 ms size && stag_tight ms bits size
+      forallb (fun m => strict (snd m) && (snd (fst m) + swidth (snd m) <=? size)%nat) ms
+      && ((size =? 0)%nat || existsb (fun m => progress (snd m)) ms || negb (is_nil bits))
   | _ => false
   end.
+
+(* the types the short-read statement speaks about: those with a width or an announced length *)
+Definition short_ok (t : ty) : bool :=
+  match t with TStr _ _ _ | TStringN => true | _ => strict t end.
 
 (* ------------------------------------------------------------------ BufferEmptyError only at the end *)
 Fixpoint be_ok (t : ty) : bool :=
   match t with
-  | TBool | TReal _ | TIPAddr | TDateTime | TPcccAscii | TPcccString | TArrAll _ => true
-  | TInt _ w | TBits w => (0 <? w)%nat
-  | TStr _ lw _ => (0 <? lw)%nat
-  | TStringN | TStringI => false               (* _stream_read(stream, 0) for a string of zero characters *)
-  | TNBytes n => negb (n =? 0)
-  | TFixedStr size _ lw _ => (0 <? size)%nat && (0 <? lw)%nat
   | TArrFixed _ e => be_ok e
-  | TArrPrefix inst lt _ => negb inst || be_ok lt
+  | TArrPrefix _ lt e => be_ok lt && be_ok e
   | TStruct _ ms => forallb (fun m => be_ok (snd m)) ms
   | TStructTag ms bits priv size => strict (TStructTag ms bits priv size)
-  end.
-
-(* ------------------------------------------------------------------ encode: foreign exceptions *)
-Definition sized (v : val) : bool :=
-  match v with VStr _ | VBytes _ | VList _ | VTuple _ | VDict _ => true | _ => false end.
-
-(* exactly the calls on which a TypeError escapes T.encode(value) *)
-Definition enc_foreign (t : ty) (v : val) : bool :=
-  match t with
-  | TDateTime => true                                              (* arity: encode(cls, time, date) *)
-  | TArrFixed _ _ | TArrPrefix _ _ _ | TArrAll _ => negb (sized v)  (* len(values) outside the try *)
-  | _ => false
-  end.
-
-(* values the model does not cover: a list with non-integer items given to n_bytes *)
-Definition in_model (t : ty) (v : val) : bool :=
-  match t, v with
-  | TNBytes _, (VList l | VTuple l) => negb (is_none (ints_of l))
-  | _, _ => true
+  | _ => true
   end.
 
 (* ------------------------------------------------------------------ encode: values outside the domain *)
+Definition sized (v : val) : bool :=
+  match v with VStr _ | VBytes _ | VList _ | VTuple _ | VDict _ => true | _ => false end.
 Definition seq_items (v : val) : option (list val) :=
   match v with VList l | VTuple l => Some l | _ => None end.
 
@@ -172,26 +162,47 @@ Section Existsb2.
     end.
 End Existsb2.
 
+Definition enc_ok (e : tenc) (s : text) : bool := negb (is_err (text_encode e s)).
+Definition ip_ok (s : text) : bool := negb (is_none (parse_ipv4 s)).
+
+Definition int_bad (sg : bool) (w : nat) (v : val) : bool :=
+  match v with VInt z => negb (int_in_range sg w z) | VBool _ => false | _ => true end.
+
 Definition real_bad (dbl : bool) (v : val) : bool :=
   match as_float v with
   | Err _ => true                                   (* not a number, or an int beyond the double range *)
   | Ok b => negb dbl && is_none (round32 b)         (* a finite value that rounds beyond binary32 *)
   end.
 
+(* the prefix counts code units: the encoded length divided by the character width *)
 Definition str_bad (lsg : bool) (lw : nat) (e : tenc) (s : text) : bool :=
-  negb (int_in_range lsg lw (zlen s)) || negb (encodable e s).
+  match text_encode e s with
+  | Ok d => negb (int_in_range lsg lw (zlen d / char_width e))
+  | Err _ => true
+  end.
+
+(* FixedSizeString: the prefix is len(value) (one byte per character) *)
+Definition fstr_bad (lsg : bool) (lw : nat) (s : text) : bool :=
+  negb (int_in_range lsg lw (zlen s)) || negb (enc_ok Latin1 s).
 
 (* [bad t v]: v is clearly outside the domain of t — out of range, wrong Python type, too few
    elements for a fixed array, too few values for a structure, missing member, wrong bit-string
    length, unencodable character.  [false] = inside, or not classified (BOOL takes any value by
-   truthiness; str / bytes / dict given to an array are sequences the code indexes). *)
+   truthiness; str / bytes / dict given to an array are sequences the code indexes; a list given
+   to n_bytes is converted). *)
 Fixpoint bad (t : ty) (v : val) : bool :=
   match t with
-  | TBool | TDateTime | TStringI => false
-  | TInt sg w => match v with VInt z => negb (int_in_range sg w z) | VBool _ => false | _ => true end
+  | TBool | TStringI => false
+  | TInt sg w => int_bad sg w v
   | TReal dbl => real_bad dbl v
+  | TDateTime =>
+      match seq_items v with
+      | Some [time; date] => int_bad false 4 time || int_bad false 2 date
+      | Some _ => true
+      | None => negb (sized v)
+      end
   | TStr lsg lw e => match v with VStr s => str_bad lsg lw e s | _ => true end
-  | TStringN => match v with VStr s => str_bad false 2 Utf8 s | _ => true end
+  | TStringN => match v with VStr s => str_bad false 2 Latin1 s | _ => true end
   | TNBytes _ => match v with VBytes _ | VList _ | VTuple _ => false | _ => true end
   | TBits w => match py_len v with Ok n => negb (n =? 8 * Z.of_nat w) | Err _ => true end
   | TArrFixed n e =>
@@ -220,7 +231,7 @@ Fixpoint bad (t : ty) (v : val) : bool :=
           | _ => negb (sized v)
           end
       end
-  | TFixedStr _ lsg lw cap => match v with VStr s => str_bad lsg lw Latin1 (firstn cap s) | _ => true end
+  | TFixedStr _ lsg lw cap => match v with VStr s => fstr_bad lsg lw (firstn cap s) | _ => true end
   | TStructTag ms bits priv _ =>
       match v with
       | VDict d =>
@@ -231,22 +242,21 @@ Fixpoint bad (t : ty) (v : val) : bool :=
       end
   | TIPAddr =>
       match v with
-      | VStr s => negb (ip_dom s)
+      | VStr s => negb (ip_ok s)
       | VInt z => negb (in_urange 4 z)
       | VBool _ => false
       | VBytes b => negb (length b =? 4)%nat
       | _ => true
       end
   | TPcccAscii => negb (sized v)
-  | TPcccString => match v with VStr s => negb (encodable Latin1 s) | _ => true end
+  | TPcccString => match v with VStr s => negb (enc_ok Latin1 s) | _ => true end
   end.
 
-(* the three classes of values outside the domain that the code encodes without an error, wherever
-   they occur in the value: a structure given fewer values than members, n_bytes given a str, an
-   array of bit strings given too few bits / a partial element *)
+(* the class of values outside the domain that the code still encodes without an error, wherever
+   it occurs in the value: an array of bit strings given too few bits / a partial element
+   (Array.encode recomputes the element count as len(values) // bits-per-element) *)
 Fixpoint silent (t : ty) (v : val) : bool :=
   match t with
-  | TNBytes _ => match v with VStr _ => true | _ => false end
   | TArrFixed n e =>
       match seq_items v with
       | Some l => match bits_width e with
@@ -265,7 +275,7 @@ Fixpoint silent (t : ty) (v : val) : bool :=
       end
   | TStruct k ms =>
       match v with
-      | VList l | VTuple l => (length l <? length ms)%nat || existsb2 (fun m x => silent (snd m) x) ms l
+      | VList l | VTuple l => existsb2 (fun m x => silent (snd m) x) ms l
       | VDict d => existsb (fun m => match dict_get d (fst m) with Ok x => silent (snd m) x | Err _ => false end) ms
       | _ => false
       end
